@@ -174,6 +174,9 @@ class AlternateTargetSolver:
             thresh=setting.iso_thresh,
             seed=self.seed,
         )
+        if setting.label_map:
+            # iso_finder also returns the label maps; they are recomputed per graph below
+            iso_adjs, _ = iso_adjs
         results_list = []
         mc_list = []
         # repeater graph state check
